@@ -9,7 +9,7 @@ import gc
 import threading
 import time
 
-from vf import poolmon
+from vf import poolmon, steady
 from vf.probes import EXC_CLASSES, BASE_EXC_CLASSES
 
 TASK_EXC = EXC_CLASSES + BASE_EXC_CLASSES
@@ -253,14 +253,13 @@ class FutureRun(object):
 
     def _wait(self, cond, what, hard=60.0):
         t0 = time.monotonic()
-        last, last_change = self.h.useful, t0
+        still = steady.Stillness(3.0, 500, self.name)
         while not cond():
             time.sleep(0.001)
-            n, now = self.h.useful, time.monotonic()
-            if n != last:
-                last, last_change = n, now
-            elif now - last_change > 3.0:
-                self.frozen = {"what": what, "stacks": poolmon.thread_stacks(self.name)}
+            now = time.monotonic()
+            verdict = still.look(self.h.useful)
+            if verdict is not None:
+                self.frozen = {"what": what, "stacks": verdict["stacks"]}
                 return False
             if now - t0 > hard:
                 self.frozen = {"what": what, "inconclusive": True}
